@@ -107,3 +107,14 @@ chk("C14",
     "The dtype lane is degenerate symbolic execution (all variables are selectors, no solver): it relies on NEP 50 (result dtypes do not "
     "depend on values). Known finding: gru's output tensor reads a gradient of shape (T,N,D).",
     "symbolic execution + SMT equivalence of two formulations with symbolic seeds; enumeration for type/shape/dtype facts", "DESIGN §3 C14")
+chk("C10",
+    "Leaf constant flags are SYMBOLIC booleans: leaves are instances of a harness-side Tensor subclass whose `constant` property forks; the "
+    "untouched library decides each flag where it reads it (Tensor._op inference, Operation.backward skip, Tensor.backward early exit, copy "
+    "inside _in_place_op), so every flag assignment it distinguishes is a path of 18 programs (views, set-item, augmented assignment, "
+    "out=/where=, reductions, matmul, einsum, where, concatenate, constant=True/False on functions and methods). Per path: result and "
+    "intermediate flags follow the documented rule (all-inputs-constant unless overridden; in-place target keeps its flag), constants "
+    "have grad None, and z3 decides for all real inputs that the other gradients equal the reference derivative with constants held "
+    "fixed AND the gradients of the same program with every constant tensor replaced by a bare ndarray. Dtype rules (int/bool always "
+    "constant, constant=False raises, float default, non-bool flag rejected) on concrete tensors.",
+    "Trusted: reference differentiator; hand-written expected-flag rule per program. Programs outside the list are outside.",
+    "symbolic execution with symbolic boolean flags (path per flag assignment) + SMT gradient equivalence against two oracles", "DESIGN §3 C10")
